@@ -41,3 +41,7 @@ claim('C18',
   'bounded model checking of thread interleavings (CBMC partial-order encoding; SC, TSO, PSO) of the real mt.c once/atomic primitives with 2-3 threads; for rng.c, whose shared pointer CBMC cannot encode concurrently, lock discipline (every kernel/allocator/source call under the mutex, mutex released on every path) and reference counting for every sequential API program of bounded length',
   'trusted: CBMC concurrency encoding and memory models, __sync builtins atomic, pthread mutex correct; spin loops bounded by the unwinding limit without unwinding assertion', 'DESIGN.md 3/C18',
   'CBMC partial-order concurrency encoding (SC/TSO/PSO) + sequential lock-discipline monitor')
+
+claim('C19',
+  'bounded model checking of configuration pairs of the SAME source file linked into one program (second configuration compiled with other macros and all externals renamed): 64- vs 32-bit word builds of the belt length-block/GF helpers and of zz/ww add/sub/compare on octet strings, and the 64-bit vs 32-bit bash-f units for all states; regular vs fast edition is decided under C14',
+  'trusted: CBMC; little-endian host; optimisation levels, vector bash-f units and NDEBUG on/off are not covered (see evidence not_decided)', 'DESIGN.md 3/C19')
